@@ -247,8 +247,15 @@ fn dce_block_with_live(
                 };
                 // If the type-switch binding variable is not used in any case/default
                 // blocks, drop the binding (switch x := e.(type) -> switch e.(type)).
+                // (What is live after the switch is live into every case, so the live-in
+                // sets cannot tell: look at the uses inside the blocks.)
                 let bind = bind.filter(|bname| {
-                    !(!cases_live_in.contains(bname) && !default_live_in.contains(bname))
+                    new_cases
+                        .iter()
+                        .any(|(_, b)| free_vars_in_block(b).contains(bname))
+                        || default_b
+                            .as_ref()
+                            .is_some_and(|b| free_vars_in_block(b).contains(bname))
                 });
                 add_uses_expr(&mut live, &expr);
                 live.extend(cases_live_in);
